@@ -64,8 +64,19 @@ def new_result(name, t, acc):
     return Result(name, t, accumulate_values=acc)
 
 
-def accumulate(name, t, acc, obs):
-    r = new_result(name, t, acc)
+def accumulate(name, t, acc, obs, via_create=False):
+    if via_create and obs:
+        # the documented shortcut: create the object together with its first update
+        v, tot = obs[0]
+        if t == Result.CHOICETYPE:
+            r = Result.create(name, t, v, CHOICE_NUM, accumulate_values=acc)
+        elif tot is None:
+            r = Result.create(name, t, v, accumulate_values=acc)
+        else:
+            r = Result.create(name, t, v, tot, accumulate_values=acc)
+        obs = obs[1:]
+    else:
+        r = new_result(name, t, acc)
     for v, tot in obs:
         if tot is None:
             r.update(v)
@@ -219,7 +230,8 @@ def case_result(ctx, rng, idx):
         return
     bounds = partition(rng, n, k)
     okc, parts = ctx.call("grouping-independent",
-                          lambda: [accumulate("r", t, acc, obs[bounds[i]:bounds[i + 1]])
+                          lambda: [accumulate("r", t, acc, obs[bounds[i]:bounds[i + 1]],
+                                              via_create=bool(rng.integers(0, 2)))
                                    for i in range(k)], detail=tag)
     if not okc:
         return
@@ -268,7 +280,7 @@ def make_set(rng, names, kinds, accs, nobs, vclass):
     for nm, t, acc in zip(names, kinds, accs):
         obs = gen_obs(rng, t, nobs, vclass if t != Result.CHOICETYPE else "exact")
         obs_by_name[nm] = obs
-        sr.add_result(accumulate(nm, t, acc, obs))
+        sr.add_result(accumulate(nm, t, acc, obs, via_create=bool(rng.integers(0, 2))))
     return sr, obs_by_name
 
 
@@ -316,6 +328,10 @@ def case_set(ctx, rng, idx):
     if tree == "left-into-empty":
         # the way the runner accumulates: start from an EMPTY results object
         target = SimulationResults()
+        if rng.random() < 0.5:
+            # user code commonly looks at the (still empty) accumulator first
+            ctx.ev("set-grouping-independent", list(target.get_result_names()) == [] and
+                   len(target) == 0, cls="empty-accumulator", detail=tag)
         okc, _ = ctx.call("set-grouping-independent",
                           lambda: [domerge(target, s) for s in sets], detail=tag)
         merged = target
@@ -425,7 +441,12 @@ def case_combine(ctx, rng, idx):
     if (idx // 9) % 3 == 1:
         # closely spaced tiny values (noise variances and the like)
         universe = {"a": np.arange(1, 7) * 1e-9, "b": np.array([1e-12, 1e-11, 3e-12, 2e-10])}
-    unp = ["a", "b"][:nunp]
+    # parameter names as users write them; with digit runs the text order
+    # ('p10' < 'p2') is not the numeric one
+    n0, n1 = [("a", "b"), ("p10", "p2"), ("user2_power", "user10_power"), ("b", "a")][
+        int(rng.integers(0, 4))]
+    universe = {n0: universe["a"], n1: universe["b"]}
+    unp = [n0, n1][:nunp]
     overlap = ["none", "partial", "full"][(idx // 3) % 3]
 
     def pick(vals):
